@@ -473,6 +473,8 @@ def c08(tier, seed, wd, replay):
         pf = None
         if name.endswith("chain"):
             pf = lambda ks: P.h(ks) % 6 == 0
+        elif name in ("graphs-4x3-D", "graphs-3x3-D"):
+            pf = big_filter(0, 4)           # 10 attribute vectors x every universe x every start on >4000 graphs: every fourth graph
         run_config(run, "C08", f"{name}:{vcls}", consts, wd, spec, vertex_cls=vcls, probe_filter=pf)
     # dense random graphs from the specification's own random walk, duplicate-target attribute vectors
     bigspec = {"kind": "C08", "seed": seed, "vectors": 3 if tier == "quick" else 10, "big": True}
